@@ -399,7 +399,7 @@ prop("C06", level="exploration", engine="vrt",
      rules=["all strings <= L symbols over the representative alphabet + transition cover x 256 + loop inputs, per compiled definition, both back ends in one process; non-trivial = expected stream has >= 2 items, an error or a skip"],
      assumptions=L2_ASSUME)
 prop("C12", level="exploration", engine="vgraph+vrt",
-     technique="exhaustive differential replay of each definition compiled in str mode and in utf8=false mode on every enumerated valid UTF-8 input; product exploration of both graphs against the same reference over valid UTF-8 paths; acceptance of byte-only patterns",
+     technique="exhaustive differential replay of each definition compiled in str mode and in utf8=false mode on every enumerated valid UTF-8 input; product exploration of both graphs against the same reference over valid UTF-8 paths; acceptance of byte-only patterns; full-alphabet sweep (every Unicode scalar value) through str / utf8 = false twins built by the real derive",
      text="Ok tokens and spans are equal and the sets of bytes covered by errors are equal between the two modes for every enumerated valid UTF-8 input; byte-only patterns are rejected in str mode and accepted with utf8 = false.",
      note="Same trusted base as C01.", design_ref="5 C12",
      steps=[step_vgraph("c12"), step_layer2(["u-dev"], ["u-dev", "u-rel", "f-dev", "f-rel"]),
@@ -419,7 +419,7 @@ prop("C13", level="exploration", engine="vderive",
      note="The reference lexer for these enums is hand-written (first letter + digits), independent of vcore and of logos.", design_ref="5 C13",
      steps=[step_vgraph("c13cb"), step_vderive("c13", ["tc-u-dev", "sm-u-dev"], ["tc-u-dev", "sm-u-dev", "tc-f-dev", "sm-f-dev", "tc-u-rel", "sm-u-rel", "tc-f-rel", "sm-f-rel"], compare_digests=True)], assumptions=["callback decisions are pure functions of the matched text"])
 prop("C14", level="model_checking", engine="vderive",
-     technique="breadth-first exploration of all histories of public Lexer API calls on real Lexer objects, de-duplicated on the canonical observable state; differential oracle against a fresh lexer on the remainder",
+     technique="breadth-first exploration of all histories of public Lexer API calls on real Lexer objects and on the SpannedIter wrapper, de-duplicated on the canonical observable state plus the history fact 'a next() answered None'; differential oracle against a fresh lexer on the remainder; every provided Iterator method against manual iteration in every state",
      text="From every reachable state (definition, span, mode, extras) of two definition pairs over 14 sources: slice()/remainder() agree with the source, next() equals a fresh lexer of the active definition and mode on the remainder, clones are independent, morph preserves position / mode / extras and is undone by morphing back, spanned() equals manual iteration.",
      note="States are real Lexer objects; the state key is exact because those fields are the whole Lexer.", design_ref="5 C14",
      steps=[step_vderive("c14", ["tc-u-dev", "sm-u-dev"], ["tc-u-dev", "sm-u-dev", "tc-f-dev", "sm-f-dev", "tc-u-rel", "sm-u-rel", "tc-f-rel", "sm-f-rel"])], assumptions=["bump is only offered when in range (its failure behaviour is C15)"])
@@ -435,7 +435,7 @@ prop("C17", level="exploration", engine="vgraph + real logos-cli binary",
      technique="exhaustive enumeration of an enum-source grammar through the real logos-cli binary against an independent syn-based stripping oracle + generate(); breadth-first exploration of all write/--check/edit histories up to depth 4 against a four-state file model",
      text="For every enumerated enum source the CLI's output equals (as a token stream) the input enum with exactly the logos/token/regex attributes and the Logos derive removed, followed by the derive's implementation, and parses as a Rust file; for every history of write / --check / make-stale / CRLF / delete up to depth 4, --check succeeds iff the file holds that output modulo line endings and never modifies it.",
      note="The oracle for stripping is written against syn independently of logos_codegen::strip_attributes; generate() itself is the same library function the CLI calls.", design_ref="5 C17",
-     steps=[step_cli], assumptions=["--format (rustfmt) is not exercised"])
+     steps=[step_cli], assumptions=["--format is exercised when rustfmt is on PATH (it is in this sandbox); its output is compared with the harness's own call of rustfmt"])
 
 ORDER = [f"C{n:02d}" for n in range(1, 21)]
 
